@@ -1,14 +1,43 @@
 (* C12  Per-channel request limit throttles exactly the excess.
    Statements only; every proof is `exact <lemma>`.  Model: coq/Server.v (MaxRequests::poll_next
-   over BaseChannel, Requests); monitors: coq/ServerMon.v. *)
+   over BaseChannel, Requests); monitors: coq/ServerMon.v; proofs: coq/ServerState.v,
+   coq/ServerProps.v, coq/ServerWitness.v.
+
+   Proved here, for every transport (any state type, any behaviour), every environment, every
+   configuration (L = 0 included) and every op list:
+     (a) the application is handed a request only below the limit (state form and trace form).
+   Proved by computation: the witness of K1 (clause (c) is false of the code).
+   NOT yet proved as theorems (checked on every run by the monitor c12_ok / c12_rel_ok on the
+   real code's traces, and by the correspondence):
+     C12_monitor_rel : forall c t0 ops, c12_rel_ok c ops (fst (srun c t0 ops)) = true
+     C12_monitor     : forall c t0 ops, freed_in_same_poll c ops (fst (srun c t0 ops)) = false ->
+                                        c12_ok c ops (fst (srun c t0 ops)) = true
+   (clauses (b) exactly one throttle reply per refused request, never yielded, and (c) refused
+   only with L in flight outside the class FreedInSamePoll).  The simulation they need
+   (ServerSim*.v: observer vs model through every polling loop) is proved up to the poll step
+   (ServerSim6.top_poll); the verdict flags are not threaded through it yet. *)
 From Coq Require Import List Bool Arith NArith.
 Import ListNotations.
-From TarpcV Require Import Base Transport TimerWheel Server ServerMon ServerWitness.
+From TarpcV Require Import Base Transport TimerWheel Server ServerMon ServerWitness ServerState ServerProps.
+
+(* (a), state form: MaxRequests::poll_next returns a request only if, with it, at most `limit`
+   requests are tracked *)
+Theorem C12_maxreq_below_limit :
+  forall (T : Type) (tp : transport T response cmsg) f limit (s s' : @sstate T) q,
+    keys_ok s -> maxreq_poll_next tp f limit s = (PReady q, s') -> length (s_inflight s') <= limit.
+Proof. intros T tp f limit s s' q K H. exact (proj2 (maxreq_keys_len tp f limit s _ s' H K)). Qed.
+
+(* (a), trace form: in every run, right after a yield the in-flight gauge is at most L *)
+Theorem C12_yield_within_limit :
+  forall (T C : Type) (tp : transport T response cmsg) (ctl : T -> C -> T) (tfuel : T -> nat)
+         (c : cfg) (t0 : T) (ops : list (op C)),
+    forallb (yield_within (cfg_limit c)) (fst (run tp ctl tfuel c t0 ops)) = true.
+Proof. exact C12_server_yield_within_limit. Qed.
 
 (* K1 (known finding): the clause "refused only if L really were in flight" is FALSE of the
-   code when capacity is freed inside the same inner poll that reads the request.  Witness:
-   limit 1, request 1 in flight, `Cancel 1; Request 2` read by one poll: request 2 is throttled
-   with 0 in flight.  The full monitor rejects it, the relaxed one (class exempt) accepts it. *)
+   code when capacity is freed inside the same poll that reads the request.  Witness: limit 1,
+   request 1 in flight, `Cancel 1; Request 2` read by one poll: request 2 is throttled with 0 in
+   flight.  The full monitor rejects it, the relaxed one (class exempt) accepts it. *)
 Theorem C12_freed_in_same_poll_witness :
   c12_ok k1_cfg k1_ops (tr_of k1_cfg k1_ops) = false
   /\ c12_rel_ok k1_cfg k1_ops (tr_of k1_cfg k1_ops) = true
@@ -19,4 +48,24 @@ Theorem C12_freed_in_same_poll_witness :
       OPending; OGauges 0 0].
 Proof. exact k1_witness. Qed.
 
+(* non-vacuity: limit 1: the second request is throttled while the first is in flight, and is
+   yielded once the first has been answered *)
+Example C12_nonvacuous :
+  fst (srun (mkcfg (Some 1) 1) t_unbounded
+        [OCtl (TDeliver (MReq 1 1000 7 5)); OPoll; OCtl (TDeliver (MReq 2 1000 7 6)); OPoll;
+         OHandlerPoll 0 (SFinish 9); OPoll; OCtl (TDeliver (MReq 3 1000 7 6)); OPoll])
+  = [[OGauges 0 0];
+     [OCalls [CNext (RItem (MReq 1 1000 7 5)); CReady TOk; CFlush TOk]; OYield 0 1 1000 7 5; OGauges 1 1];
+     [OGauges 1 1];
+     [OCalls [CReady TOk; CNext (RItem (MReq 2 1000 7 6)); CSend (mkresp 2 BThrottle) SOk; CReady TOk;
+              CNext RPending; CReady TOk; CFlush TOk]; OPending; OGauges 1 1];
+     [OHPolled 0; OHDone 0 (BOk 9); OExecReady 0; OGauges 1 1];
+     [OCalls [CReady TOk; CNext RPending; CReady TOk; CSend (mkresp 1 (BOk 9)) SOk; CNext RPending;
+              CReady TOk; CFlush TOk]; OPending; OGauges 0 0];
+     [OGauges 0 0];
+     [OCalls [CNext (RItem (MReq 3 1000 7 6)); CReady TOk; CFlush TOk]; OYield 1 3 1000 7 6; OGauges 1 1]].
+Proof. vm_compute. reflexivity. Qed.
+
+Print Assumptions C12_maxreq_below_limit.
+Print Assumptions C12_yield_within_limit.
 Print Assumptions C12_freed_in_same_poll_witness.
